@@ -7,7 +7,7 @@
    Closed under the global context. *)
 From Coq Require Import Qround Sorted Lqa.
 From MM Require Import Base.Num Model.Ticks Proofs.Ticks Proofs.TicksLinear Check.C17 Proofs.CheckBase
-  Proofs.CheckC17Base Proofs.CheckC17Parse Proofs.CheckC17Lin Proofs.CheckC17Log Proofs.CheckC17Win Proofs.CheckC17WinLog.
+  Proofs.CheckC17Base Proofs.CheckC17Parse Proofs.CheckC17Lin Proofs.CheckC17Log Proofs.CheckC17Win Proofs.CheckC17WinLog Proofs.CheckC17WinCase.
 Local Open Scope Z_scope.
 
 (* a Log scale as NewLog returns it *)
@@ -365,11 +365,26 @@ Lemma borderline_window :
      log_level_exact base (log_e base mn mx) (lf_neg mn mx) (lf_emin mn mx) (lf_emax mn mx) tolv lv = true) /\
   (forall tolv o base mn mx st major minor l, le_amb (log_e base mn mx) = false ->
      log_search o (log_e base mn mx) false = FL_ok l -> (match minor with Some _ => 1 | None => 0 end <= l)%Z ->
-     log_ticks_A tolv o base mn mx st major minor = true -> log_ticks_E tolv o base mn mx st major minor = true).
+     log_ticks_A tolv o base mn mx st major minor = true -> log_ticks_E tolv o base mn mx st major minor = true) /\
+  (* a whole Linear case: no borderline verdict without a decision inside the window *)
+  (forall c t p d eb, judge_linear c = verdict 1 t p d -> lin_ebase (sc_base c) = Some eb ->
+     exists ao bo, so_nmin (sc_ob c) = XFin ao /\ so_nmax (sc_ob c) = XFin bo /\
+     let base := sc_base c in let mn := sc_mn c in let mx := sc_mx c in
+     ~ ((forall l, lin_amb_level base eb (fst (lin_order mn mx)) (snd (lin_order mn mx)) false l = false) /\
+        (forall l, lin_amb_level base eb mn mx false l = false) /\
+        (forall l, lin_amb_level base eb (fst (lin_start mn mx)) (snd (lin_start mn mx)) true l = false) /\
+        (forall l, lin_amb_level base eb (fst (lin_order ao bo)) (snd (lin_order ao bo)) false l = false) /\
+        (forall l, lin_amb_level base eb (fst (lin_start ao bo)) (snd (lin_start ao bo)) true l = false))) /\
+  (forall base eb o tolv, lin_ebase base = Some eb -> forall a b major, a < b ->
+     (forall l, lin_amb_level base eb a b false l = false) ->
+     lin_ticks_adm o base eb a b tolv (lin_search o base eb a b false) major None = true ->
+     exists l, lin_search o base eb a b false = FL_ok l /\ (1 <= o_max o)%Z /\
+       close_list tolv (lin_ticks_at base eb a b false l) major = true).
 Proof.
   split; [exact lin_level_adm_window|]. split; [exact lin_levels_borderline_in_window|].
   split; [exact lin_ticks_adm_window|]. split; [exact lin_nice_adm_window|]. split; [exact near_round_window|].
   split; [intros q H; split; [now apply floor_adm_window | now apply ceil_adm_window]|].
-  split; [exact log_nice_A_window|]. split; [exact log_level_adm_window | exact log_ticks_A_window].
+  split; [exact log_nice_A_window|]. split; [exact log_level_adm_window|]. split; [exact log_ticks_A_window|].
+  split; [exact linear_borderline_needs_window | exact lin_ticks_adm_window_none].
 Qed.
 End Statements.
